@@ -40,6 +40,39 @@ structure TableVal where
 
 def TableVal.nRows (t : TableVal) : Nat := match t.columns with | [] => 0 | c :: _ => c.values.length
 
+/-- `pd.to_datetime(val).to_pydatetime()` followed by `str`: what is finer than a microsecond is dropped
+    (a token carries 0, 6 or 9 fractional digits), and `str(datetime)` prints no fraction at all when the
+    microseconds are zero.  A UTC offset after the fraction is kept. -/
+def truncMicro (tok : Str) : Str :=
+  match tok.dropWhile (fun c => c != '.') with
+  | [] => tok
+  | _ :: rest =>
+    let digs := rest.takeWhile Char.isDigit
+    if digs.length ≤ 6 then tok
+    else
+      let head := tok.takeWhile (fun c => c != '.')
+      let suffix := rest.dropWhile Char.isDigit
+      if (digs.take 6).all (fun c => c == '0') then head ++ suffix else head ++ '.' :: digs.take 6 ++ suffix
+
+theorem dropWhile_ne_dot (tok : Str) (h : tok.contains '.' = false) :
+    tok.dropWhile (fun c => c != '.') = [] := by
+  induction tok with
+  | nil => rfl
+  | cons c cs ih =>
+    simp only [List.contains_cons, Bool.or_eq_false_iff] at h
+    have hc : (c != '.') = true := by
+      have h1 := h.1
+      simp only [beq_eq_false_iff_ne, ne_eq] at h1
+      simp only [bne_iff_ne, ne_eq]
+      exact fun e => h1 e.symm
+    show (match (c != '.') with | true => List.dropWhile (fun c => c != '.') cs | false => c :: cs) = []
+    rw [hc]
+    exact ih h.2
+
+theorem truncMicro_of_no_dot (tok : Str) (h : tok.contains '.' = false) : truncMicro tok = tok := by
+  unfold truncMicro
+  rw [dropWhile_ne_dot tok h]
+
 /-- `_represent_row_elements` for one element: `col` is the position the code tests with `col == 0`
     (the column index when called row-wise; the *row* index when called through
     `_represent_col_elements`) -/
@@ -62,7 +95,7 @@ def represent (naRep : Str) (col : Nat) (unit : Str) (v : Val) : Cell :=
     | .dt t => .str (t.map (fun c => if c = 'T' then ' ' else c))
   else if unit = uDatetime then
     match v with
-    | .dt t => .dt t
+    | .dt t => .dt (truncMicro t)
     | .text s => .other s            -- pd.to_datetime(str): outside well-formed tables
     | .bool b => .bool b
     | .num t => .float t
